@@ -37,13 +37,13 @@ def _il_ops(c):
         if r not in started:
             started.add(r)
             cl, red = "client_1", RED
-            if c["wrong"] == "client" and r == 0:
-                cl = "client_2"
+            if c["wrong"] in ("client", "claim") and r == 0:
+                cl = "client_2"       # "claim": client_2 authenticates in the Authorization header, the body names client_1
             if c["wrong"] == "redirect" and r == 0:
                 red = RED + "/x"
             if c["wrong"] == "noredirect" and r == 0:
                 red = None
-            ops.append(["tokenParse", cl, 1, red])
+            ops.append(["tokenParse", cl, 1, red] + (["client_1"] if c["wrong"] == "claim" and r == 0 else []))
             pend.append(r)          # optimistic; if the parse fails the process below names a missing index -> refused on both sides
         else:
             idx = pend.index(r) if r in pend else 99
@@ -75,10 +75,10 @@ def cases(rng, tier):
         k = rng.choice([2, 3])
         s = rng.choice(schedules(k))
         out.append(il_case(k, s, oidc, jwt, tick_at=rng.randrange(len(s)), tick=rng.choice([299, 300, 301, 5000]),
-                           wrong=rng.choice([None, None, "client", "redirect", "noredirect"])))
+                           wrong=rng.choice([None, None, "client", "claim", "redirect", "noredirect"])))
     # binding clauses on each endpoint/handler combination: one redemption with a wrong client / altered / missing redirect_uri, then the right one
     for oidc, jwt in combos:
-        for wrong in ("client", "redirect", "noredirect"):
+        for wrong in ("client", "claim", "redirect", "noredirect"):
             out.append(il_case(2, (0, 0, 1, 1), oidc, jwt, wrong=wrong))
             out.append(il_case(2, (0, 1, 0, 1), oidc, jwt, wrong=wrong))
     n = {"quick": 30, "thorough": 600, "search": 400}[tier]
